@@ -264,6 +264,10 @@ def _augment_with_ancient_samples(g, sampled_demes, deme_sample_times):
                 for ii, d in enumerate(b.data["demes"]):
                     if d["name"] == sd:
                         b.data["demes"][ii]["name"] = sd_frozen
+                    # demes descending from the sampled deme refer to it by name
+                    if sd in d.get("ancestors", []):
+                        b.data["demes"][ii]["ancestors"] = [
+                            sd_frozen if anc == sd else anc for anc in d["ancestors"]]
                 # change migration and pulse demes involving this sampled deme
                 if "migrations" in b.data.keys():
                     for ii, m in enumerate(b.data["migrations"]):
